@@ -104,6 +104,13 @@ contract("CParser._tok_coord", file=P, params={"self": "CParser", "tok": "Token"
          ensures=["fresh_obj(result)", "result.file == self.clex._filename", "result.line == tok.lineno",
                   "same(result.column, tok.column)"], modifies=[])
 
+# C11, file part: the coordinate of a token must name the file in effect WHEN THE TOKEN WAS PRODUCED.  file_at(tok) is that
+# file (ghost); the lexer does not stamp it on the token and _coord reads the lexer's CURRENT file name, which may already
+# have been changed by a linemarker lexed during look-ahead: the obligation below is not provable (known finding).
+contract("CParser._tok_coord#file", variant_of="CParser._tok_coord", file=P, params={"self": "CParser", "tok": "Token"}, returns="Coord",
+         ghost=[("file_at", ["val"], "str", [])],
+         ensures=["result.file == file_at(tok)"], modifies=[])
+
 # ---------------------------------------------------------------- token helpers
 _TSMOD = ["elems(self._tokens._buffer)", LEXSTATE]
 contract("CParser._peek", file=P, params={"self": "CParser", "k": "int"}, returns="opt[Token]",
